@@ -11,7 +11,13 @@ Ev == Tr[l]
 Is(e) == l <= Len(Tr) /\ Tr[l].ev = e /\ l' = l + 1
 Check(name, c) == c \/ (PrintT(<<"REJECT", tid, l, name>>) /\ FALSE)
 All(t) == \A i \in DOMAIN t : t[i]
-Verdict == IF tid > 0 /\ status = "ok" THEN PrintT(<<"ACCEPT", tid>>) ELSE TRUE
+\* complete: the run crashed or every scripted step was taken (the steps are numbered)
+Complete == \/ Tr[l - 1].ev = "crash"
+            \/ (Tr[l - 1].ev = "tstep" /\ Tr[l - 1].k = S.nst)
+            \/ (Tr[l - 1].ev = "setup" /\ S.nst = 0)
+Verdict == IF tid = 0 THEN TRUE
+           ELSE IF ~Complete THEN PrintT(<<"REJECT", tid, l, "trace.incomplete">>)
+           ELSE IF status = "ok" THEN PrintT(<<"ACCEPT", tid>>) ELSE TRUE
 Mark(ok) == status' = IF ok THEN status ELSE "rej"
 Abs(x) == IF x < 0 THEN 0 - x ELSE x
 Init == l = 1 /\ tid = 0 /\ status = "ok" /\ S = [none |-> 0]
@@ -46,6 +52,7 @@ TStep ==
           hcell(i) == Depth(G, Round(e.pre.x[i]), Round(e.pre.y[i]))          \* the cell occupied when the step began
           dz(i) == DispZ(e, i, xw(i))
       IN /\ Mark(All(<<Check("setup.valid", shape /\ ExactDiv(e, n)),
+                    Check("track.every_step", e.k = (IF Tr[l - 1].ev = "tstep" THEN Tr[l - 1].k + 1 ELSE 1)),
                     Check("lattice", ~e.off),
                     Check("diff.draw_count", (S.s16 > 0 \/ S.sz16 > 0) => Len(e.draws) = nh + nv),
                     Check("diff.deterministic_when_off", (S.s16 = 0 /\ S.sz16 = 0) => Len(e.draws) = 0),
